@@ -1,8 +1,9 @@
 from pypika.terms import (
     Field,
     Function,
+    Term,
 )
-from pypika.utils import format_alias_sql
+from pypika.utils import builder, format_alias_sql
 
 
 class ToString(Function):
@@ -18,6 +19,11 @@ class ToFixedString(Function):
         self.name = "toFixedString"
         self.schema = schema
         self.args = ()
+
+    @builder
+    def replace_table(self, current_table, new_table) -> "ToFixedString":
+        if isinstance(self._field, Term):
+            self._field = self._field.replace_table(current_table, new_table)
 
     def get_sql(self, with_alias=False, with_namespace=False, quote_char=None, dialect=None, **kwargs):
         sql = "{name}({field},{length})".format(
